@@ -124,7 +124,7 @@ def step (d : D) (line : String) : D × String :=
     ({ d with st := st }, "\n".intercalate (tr ++ ["end"]))
   | ["run", "fsm"] =>
     if st.threaded || d.fsmRan || st.s.state = .shutdown then bad else
-    let budget := (st.tape.length + st.sendQ.length + st.openQ.length) * 8 + 64
+    let budget := (tapeFuel st + st.sendQ.length + st.openQ.length) * 8 + 64
     let st := fsmStart budget (tapeFuel st) st
     let (st, tr) := flush st
     ({ st := st, fsmRan := true }, "\n".intercalate (tr ++ ["end"]))
